@@ -128,7 +128,7 @@ def run_engine(ob, cubes, workdir, tag):
         cmd.append("-cross")
     if ob.get("decide", True):
         cmd.append("-decide")
-    cmd += ["-maporder", ob.get("maporder", "fixed")]
+    cmd += ["-maporder", ob.get("maporder", "fixed"), "-solver", ob.get("solver", "z3")]
     for k, v in ob.get("consts", {}).items():
         cmd += ["-const", "%s=%d" % (k, v)]
     t0 = time.time()
